@@ -198,8 +198,17 @@ def run(A, R: Report, thorough: bool):
             ok9 = (sa == {'old'} and sb == {'new'}) or (sa == {'new'} and sb == {'old'})
             # the source file is only looked at when it exists: the comparison is reached only with `old_task.has_data` established
             if o_ is f and ok9:
-                known = [(src_resolved(A, f, t_), pol) for cn in cfg_nodes_for(cfg, n_) for t_, pol in expanded_facts(A, f, cfg, cn.id)]
-                has_src = any((pol and txt.endswith('.has_data') and any(x in txt for x in old_names)) or ((not pol) and txt.startswith('not ') and txt.endswith('.has_data') and any(x in txt for x in old_names)) for txt, pol in known)
+                # path rule: every path from the start of an iteration to the comparison takes an edge on which `<old task>.has_data` holds
+                def _establishes(e_):
+                    txt = src_resolved(A, f, e_.ast)
+                    if not (txt.endswith('.has_data') and any(x in txt for x in old_names)):
+                        return False
+                    return (e_.label == 'T' and not txt.startswith('not ')) or (e_.label == 'F' and txt.startswith('not '))
+                est = [e_.id for e_ in cfg.nodes.values() if e_.kind == 'edge' and _establishes(e_)]
+                heads9 = [h_.id for h_ in cfg.nodes.values() if h_.kind == 'for']
+                starts9 = [v for h_ in heads9 for v in cfg.succ_by_label(h_, 'loop')] or [cfg.entry.id]
+                targets9 = [cn.id for cn in cfg_nodes_for(cfg, n_)]
+                has_src = bool(est) and cfg.find_path(starts9, targets9, avoid=est + heads9) is None
                 R.check(has_src, 'R20.9', f'migrate_to_parameter_mode: `{src(n_)[:40]}` (source present)', key_of('stat-without-source', has_src), 'the source is known to have data where its size is read',
                         'the size of the source file is read before it is known that the source task has data: a task that exists only in the target (computed there after an earlier migration) makes a repeated '
                         'migration stop with FileNotFoundError, and the tasks after it are not carried over', where=where(o_, n_))
